@@ -8,6 +8,7 @@ import Enc.Lemmas.ThriftDeltaStop
 import Enc.Lemmas.ThriftStructEnd
 import Enc.Lemmas.ThriftDepthExact
 import Enc.Lemmas.ThriftAlloc
+import Enc.Lemmas.ThriftUnionDec
 /-!
 # C08 — thrift decoding is total, bounded and skips unknown fields
 Property theorems only.
@@ -328,5 +329,21 @@ example : flatTy (.struct (.cons "A" "thrift:\"1\"" false (.int .i64)
     (.cons "B" "thrift:\"2\"" false (.struct (.cons "X" "thrift:\"1\"" false .f64 .nil)) .nil))) = true := by decide
 
 end Alloc
+
+/-! ## the model with unions (Enc/Model/ThriftUnion.lean) — what the driver runs for `thrift.decode`
+
+On types without a union field `decodeU` / `unmarshalU` ARE `decode` / `unmarshal`, for every input, protocol, strictness,
+depth counter and fuel: every theorem of this file speaks about the model the driver runs. For union types the decoder is
+corresponded by the harness (truncations at every offset, mutations, several members, mismatching members: `thriftUnionSweep`
+/ `thriftUnionMulti` in harness/thriftunion.go); totality and the truncation theorem are not yet proved for them. -/
+theorem decodeU_eq_decode (p : Proto) (strict : Bool) (d fuel : Nat) (ty : Ty) (b : Bytes) (cur : Val)
+    (h : noUnion ty = true) : decodeU p strict d fuel ty b cur = decode p strict d fuel ty b cur :=
+  Lemmas.ThriftUnion.decodeU_eq_decode p strict d fuel ty b cur h
+
+open Lemmas.ThriftTotal in
+theorem unmarshalU_total (p : Proto) (strict : Bool) (ty : Ty) (b : Bytes) (e : String) (h : Supported ty = true)
+    (hnu : noUnion ty = true) : unmarshalU p strict ty b ≠ .panic e := by
+  rw [Lemmas.ThriftUnion.unmarshalU_eq_unmarshal p strict ty b hnu]
+  exact Lemmas.ThriftTotal.unmarshal_total p strict ty b e h
 
 end Enc.Props.C08
